@@ -18,7 +18,7 @@ vars == <<row>>
 
 Fuel == 20
 
-Positions == <<"if", "while", "tern", "not", "andl", "andr", "orl", "orr", "run", "nottwice", "ifnot", "ternnot", "whilenot", "notor">>
+Positions == <<"if", "while", "tern", "not", "andl", "andr", "orl", "orr", "run", "nottwice", "ifnot", "ternnot", "whilenot", "notor", "ifnottwice", "whilenottwice", "ternnottwice">>
 Provs     == <<"lit", "var", "fld", "host", "single">>
 
 \* the expression standing for value v with provenance p
@@ -38,6 +38,9 @@ ProgAt(pos, x) ==
     [] pos = "ternnot" -> <<Ret(<<"tern", <<"un", "!", x>>, LitI(1), LitI(0)>>)>>
     [] pos = "whilenot" -> <<While(<<"un", "!", x>>, <<Ret(LitI(1))>>), Ret(LitI(0))>>
     [] pos = "notor" -> <<Ret(BinE("||", <<"un", "!", x>>, LitB(FALSE)))>>
+    [] pos = "ifnottwice" -> <<If(<<"un", "!", <<"un", "!", x>>>>, <<Ret(LitI(1))>>), Ret(LitI(0))>>
+    [] pos = "whilenottwice" -> <<While(<<"un", "!", <<"un", "!", x>>>>, <<Ret(LitI(1))>>), Ret(LitI(0))>>
+    [] pos = "ternnottwice" -> <<Ret(<<"tern", <<"un", "!", <<"un", "!", x>>>>, LitI(1), LitI(0)>>)>>
     [] pos = "andl"  -> <<Ret(BinE("&&", x, LitB(TRUE)))>>
     [] pos = "andr"  -> <<Ret(BinE("&&", LitB(TRUE), x))>>
     [] pos = "orl"   -> <<Ret(BinE("||", x, LitB(FALSE)))>>
@@ -69,12 +72,15 @@ RowFor(pos, p, v) ==
       done |-> TRUE]
 
 \* pairs under && and ||, both operands host-function results (fresh objects)
-PairRow(op, a, b) ==
-  LET prog == <<Ret(BinE(op, CallE("h1", <<>>), CallE("h2", <<>>)))>>
+PairRowN(op, a, b, neg) ==
+  LET l == IF neg THEN <<"un", "!", CallE("h1", <<>>)>> ELSE CallE("h1", <<>>)
+      rt == IF neg THEN <<"un", "!", CallE("h2", <<>>)>> ELSE CallE("h2", <<>>)
+      prog == <<Ret(BinE(op, l, rt))>>
       host == <<<<"h1", <<"val", a>>>>, <<"h2", <<"val", b>>>>>>
       r == RunProgram(prog, <<>>, <<>>, host, Fuel)
   IN [k |-> "truthpair", prog |-> prog, fns |-> host, vars |-> <<>>,
       runs |-> <<[obj |-> <<>>, act |-> "exec", exp |-> [out |-> r.out]]>>, done |-> TRUE]
+PairRow(op, a, b) == PairRowN(op, a, b, FALSE)
 
 \* results of built-ins in truth positions
 BuiltinXs == << CallE("between", <<LitI(1), LitI(0), LitI(2)>>), CallE("between", <<LitI(5), LitI(0), LitI(2)>>),
@@ -115,7 +121,7 @@ Next ==
   /\ \/ /\ row.k = "t0"
         /\ \E i \in 1..NV : ProvOK(row.prov, Vals[i]) /\ row' = RowFor(row.pos, row.prov, Vals[i])
      \/ /\ row.k = "p0"
-        /\ \E b \in 1..NR : row' = PairRow(row.op, Red[row.a], Red[b])
+        /\ \E b \in 1..NR, neg \in BOOLEAN : row' = PairRowN(row.op, Red[row.a], Red[b], neg)
      \/ /\ row.k = "n0"
         /\ \E b \in 1..Len(TSmall) : row' = TernRow(row.pos, row.a, b)
      \/ /\ row.k = "b0"
